@@ -318,11 +318,11 @@ def hasPending (s : BSt) : BSt × Bool :=
 
 /-- total transit events after reading every cached context (site 2 before each context) -/
 def populate (inj : BSt → Nat → BSt) (s : BSt) : BSt × Nat :=
+  let s := if s.cfg.refreshAfterSample then s else refreshCache s      -- pinned order: refreshed in `_poll`, before the clock read
   let s := if s.cfg.grace = 0 then s else inj s 7                      -- site 7: the backend reads the clock (only with ordering enabled)
   let tsNow := tsNowOf s
-  let s0 := if s.cfg.refreshAfterSample then s else refreshCache s     -- pinned (unrepaired) order
-  let s1 := inj s0 1
-  let s2 := if s.cfg.refreshAfterSample then refreshCache s1 else s1
+  let s1 := inj s 1
+  let s2 := if s.cfg.refreshAfterSample then refreshCache s1 else s1   -- repaired order: refreshed after `ts_now` is taken
   s2.cache.foldl (fun (acc : BSt × Nat) i =>
     let sA := inj acc.1 2
     let sB := readQueue inj tsNow i ((sA.th i).qStmts.length + 64) 0 sA
